@@ -8,6 +8,7 @@ every option combination, and checks on the real implementation:
  (3) exact reference paths on the unambiguous sub-class (maximal / minimal / 2^r variants / identity),
  (4) the argument is not modified and a second call returns an equal result.
 """
+import hashlib
 import itertools
 
 from mc.core import CaseResult, Space, run_check, innermost_partitura_frame, exc_text, block_of
@@ -548,8 +549,12 @@ def eval_case(case):
                     res.fail("no-structure-identity", expected="equal part", observed=canon.diff_canon(a, b)[:3], where="unfold_part_minimal", detail=ctx)
     else:
         outcomes.append("min-exc")
-    # ---- all variants
-    ok, paths = call("variants-total", S.get_paths, part, no_repeats=False, all_repeats=False, ignore_leap_info=True)
+    # ---- all variants (not enumerated in the long-chain space: 2^r of them)
+    if case.get("light"):
+        ok, paths = False, []
+        outcomes.append("var-skipped")
+    else:
+        ok, paths = call("variants-total", S.get_paths, part, no_repeats=False, all_repeats=False, ignore_leap_info=True)
     nvar = len(paths) if ok else 0
     if ok:
         res.traces += len(paths)
@@ -601,7 +606,7 @@ def eval_case(case):
         ok3, svs = call("variants-total", S.make_score_variants, part) if len(paths) <= MAX_MATERIALISED else (False, None)
         if ok3 and [sv.segment_times for sv in svs] != [path_visits(p) for p in paths]:
             res.fail("second-call-equal", expected=[path_visits(p) for p in paths][:2], observed=[sv.segment_times for sv in svs][:2], where="make_score_variants", detail=ctx)
-    else:
+    elif not case.get("light"):
         outcomes.append("var-exc")
     if seg_left:
         res.fail("argument-unchanged", expected="argument fingerprint unchanged", observed="Segment objects registered on the argument part",
@@ -620,7 +625,7 @@ def eval_case(case):
     if ok and F.fp_score(sc) != fps:
         res.fail("argument-unchanged", expected="score argument unchanged", observed=F.diff(fps, F.fp_score(sc))[:2], where="unfold_part_minimal[score]", detail=ctx)
     # ---- alignment-driven unfolding picks one of the variants
-    if case.get("content", ["plain"])[0] == "plain" and nvar <= MAX_MATERIALISED:  # (it materialises every variant)
+    if case.get("content", ["plain"])[0] == "plain" and nvar <= MAX_MATERIALISED and not case.get("light"):  # (it materialises every variant)
         p2 = fresh()
         okp, paths = call("variants-total", S.get_paths, p2, no_repeats=False, all_repeats=True, ignore_leap_info=True)
         if okp:
@@ -640,7 +645,8 @@ MAX_MATERIALISED = 32
 
 
 def _done(res, outcomes, struct):
-    res.outcome = "|".join(outcomes)[:80]
+    o = "|".join(outcomes)
+    res.outcome = o if len(o) <= 80 else o[:60] + "#" + hashlib.sha1(o.encode()).hexdigest()[:12]
     res.nontrivial = bool(struct)
     return res
 
@@ -751,6 +757,12 @@ def spaces(tier, seed):
     sp.append(Space("late-segments", late, True,
                     "every structure of every class over M=%s measures, placed behind %d measures that are each repeated on "
                     "their own (all its segments have ids from 'F' on)" % (lateMs, K)))
+    Ps = [24, 25, 26, 27] if tier == "quick" else [23, 24, 25, 26, 27, 28, 30, 40, 60]
+    longc = [dict(M=M + P, struct=shifted(st, P), content=["plain"], cls=cls + "-long", light=True)
+             for P in Ps for M in (1, 2) for cls, st in structures(M)]
+    sp.append(Space("long-chains", longc, True,
+                    "every structure over M=1,2 measures behind P=%s measures that are each repeated on their own (segment ids run "
+                    "past 'Z'); maximal and minimal unfolding only, the 2^P variants are not enumerated" % Ps))
     cv = []
     for M in ([2, 3] if tier == "quick" else [2, 3, 4, 5]):
         for cls, st in structures(M):
